@@ -15,7 +15,17 @@
        expires.
    A context (Ctx) is one zone / DHW / device; a Code is one stateful code; an attribute is read
    from a set of codes (zone.setpoint <- {2309, 2349}).  Time is integer milliseconds.
-   Messages are identified by their (unique) receipt time.
+
+   Stamp and arrival order are two things.  A message's stamp (m.t, the library's dtm) is the reading of the
+   wall clock when its frame was taken out of the serial buffer; two frames of one read carry the same
+   millisecond, and a clock that is put back (NTP step, end of DST - the library uses naive local time - or a
+   remote gateway's corrected 'ts') gives a later message an earlier stamp.  "Most recently received" is
+   decided by arrival (m.n = 1, 2, 3 ... in order of receipt; messages are identified by it), never by the
+   stamp; ages - the library's and the contract's - are measured from the stamp.  `skew` is the total amount
+   the clock has been put back so far, so now + skew is the time that really elapsed and m.r = the real
+   instant of receipt: "before the lifetime has passed" is judged on the real age (>= the age by the clock),
+   "once twice the lifetime has passed" on the age by the clock - a verdict only where both readings agree.
+   With StampSteps = {1} (skew = 0, stamps strictly increasing) all of this collapses to receipt time.
 
    No bounds in here; MC_MsgStore bounds it.  MsgStoreTrace drives the same actions from recorded
    executions of the real Gateway. *)
@@ -30,76 +40,103 @@ CONSTANTS
   LifeS, LifeA,   \* [Code -> Int] lifetime of the single / array form; 0 = no such form; -1 = never
   Grace,          \* the "few seconds' grace" (3 s in the library)
   StaleFirstRead, \* TRUE = as the code is: a read of an expired message still returns its value
-  InFlight        \* TRUE = a packet may be handled between a read and the deferred delete
+  InFlight,       \* TRUE = a packet may be handled between a read and the deferred delete
+  StampSteps,     \* by how much the clock reading of a packet may differ from the clock before it:
+                  \* {1} = strictly increasing stamps; 0 = same millisecond; < 0 = the clock was put back
+  CrossCodeOpen   \* TRUE = left open: which of two *codes* of one attribute is "the most recent" when the
+                  \* one that arrived earlier carries a stamp that is not older (the library takes the
+                  \* greatest stamp: `max(msgs)`); FALSE = arrival order decides there, too
 
 VARIABLES
-  now,            \* clock
+  now,            \* clock (what the library's _dt_now() returns)
+  skew,           \* ghost: by how much the clock has been put back in total (now + skew = real time)
+  nrx,            \* number of messages received so far (arrival counter)
   slot,           \* [Ctx -> [Code -> message]]   the entity's _msgs_[code]
   last,           \* [Ctx -> [Code -> message]]   ghost: most recently received message per (ctx, code)
   pend,           \* set of messages whose _delete_msg is scheduled (call_soon) but has not run
-  seenExp,        \* ghost: receipt times of messages that have been read while expired
+  seenExp,        \* ghost: arrival numbers of messages that have been read while expired
   obs,            \* result of the Read that has just happened (or NoObs)
   h               \* history of environment choices (for -dump / -simulate extraction)
 
-vars == <<now, slot, last, pend, seenExp, obs, h>>
+vars == <<now, skew, nrx, slot, last, pend, seenExp, obs, h>>
 
 Never   == -1
 Unknown == 0
-NoMsg   == [k |-> 0, f |-> "N", vals |-> <<>>, t |-> -1, life |-> 0]
+NoMsg   == [k |-> 0, f |-> "N", vals |-> <<>>, t |-> -1, life |-> 0, n |-> 0, r |-> -1]
 NoObs   == [c |-> 0, cs |-> {}, v |-> Unknown, m |-> NoMsg, first |-> FALSE]
 
-Msg(k, f, vals, t, life) == [k |-> k, f |-> f, vals |-> vals, t |-> t, life |-> life]
+(* t = stamp (clock at receipt), n = arrival number, r = real instant of receipt (t + skew then) *)
+Msg(k, f, vals, t, life, n, r) == [k |-> k, f |-> f, vals |-> vals, t |-> t, life |-> life, n |-> n, r |-> r]
 
 -----------------------------------------------------------------------------
 (* The expiry rule -- pure operators, shared with the trace spec. *)
 
-Age(m, t)        == t - m.t
+Age(m, t)        == t - m.t                        \* by the clock, from the stamp (what the library computes)
+RealAge(m, t, sk) == (t + sk) - m.r                \* time really elapsed since receipt (>= Age: the clock only
+                                                   \* ever loses against real time, by being put back)
 CanExpire(m)     == m.life # Never
-NotYetDue(m, t)  == ~CanExpire(m) \/ Age(m, t) < m.life                    \* C14b region
+NotYetDue(m, t, sk) == ~CanExpire(m) \/ RealAge(m, t, sk) < m.life          \* C14b region
 MustBeExp(m, t)  == CanExpire(m) /\ Age(m, t) >= 2 * m.life + Grace         \* C14c region
 (* what the code computes:  (age - 3 s) / lifespan >= 2.0   (lifespan > 0) *)
 Expired(m, t)    == CanExpire(m) /\ (Age(m, t) - Grace) >= 2 * m.life
 
 SameValue(m1, m2) == m1.k = m2.k /\ m1.f = m2.f /\ m1.vals = m2.vals          \* Message.__eq__
 
-MaxT(S) == CHOOSE m \in S : \A o \in S : o.t <= m.t
+(* `max(msgs)`: Message.__lt__ compares the stamps.  Among equal stamps (only possible between two codes of
+   one attribute - a store has one slot per code) the library takes the first in the order of its dict; the
+   model leaves that choice open (a set of candidates) *)
+TopStamp(S) == {m \in S : \A o \in S : o.t <= m.t}
+MaxN(S)     == CHOOSE m \in S : \A o \in S : o.n <= m.n
 
 (* newest stored message among the attribute's codes: `max(msgs)` by dtm / `_msgs.get(code)` *)
 Stored(sl, c, codes) == {sl[c][k] : k \in codes} \ {NoMsg}
-Picked(sl, c, codes) == IF Stored(sl, c, codes) = {} THEN NoMsg ELSE MaxT(Stored(sl, c, codes))
+Picks(sl, c, codes)  == IF Stored(sl, c, codes) = {} THEN {NoMsg} ELSE TopStamp(Stored(sl, c, codes))
 
-ReadVal(sl, t, c, codes) ==
-  LET m == Picked(sl, c, codes) IN
+ValOf(m, t, c) ==
   IF m = NoMsg THEN Unknown
   ELSE IF Expired(m, t) /\ ~StaleFirstRead THEN Unknown
   ELSE m.vals[c]
+ReadVals(sl, t, c, codes) == {ValOf(m, t, c) : m \in Picks(sl, c, codes)}
 
 (* _delete_msg for every message of P, over all stores of the controller *)
 DeleteEffect(sl, P) ==
   [c \in Ctx |-> [k \in Code |->
       IF sl[c][k] # NoMsg /\ \E p \in P : SameValue(sl[c][k], p) THEN NoMsg ELSE sl[c][k]]]
 
+(* `self._msgs_[msg.code] = msg`: whatever the stamps say, the message that arrives replaces the stored one *)
 StoreEffect(sl, m) ==
   [c \in Ctx |-> [k \in Code |-> IF c \in DOMAIN m.vals /\ k = m.k THEN m ELSE sl[c][k]]]
 
 -----------------------------------------------------------------------------
-(* The contract (property-level): what a read of (c, codes) may return at time t, given the most
-   recently received messages `la`.  Appendix A C14 a/b/c/e, J7; a fall-back to an older message
-   of *another* code of the same attribute that is not yet due is left open. *)
+(* The contract (property-level): what a read of (c, codes) may return at clock t (clock put back by sk in
+   total), given the most recently received messages `la`.  Appendix A C14 a/b/c/e, J7; a fall-back to an
+   older message of *another* code of the same attribute that is not yet due is left open.
+   "Most recently received" = greatest arrival number. *)
 Known(la, c, codes)  == {la[c][k] : k \in codes} \ {NoMsg}
-Newest(la, c, codes) == IF Known(la, c, codes) = {} THEN NoMsg ELSE MaxT(Known(la, c, codes))
+Newest(la, c, codes) == IF Known(la, c, codes) = {} THEN NoMsg ELSE MaxN(Known(la, c, codes))
 
-Allowed(la, t, c, codes) ==
-  LET n == Newest(la, c, codes) IN
-  IF n = NoMsg THEN {Unknown}
-  ELSE IF NotYetDue(n, t) THEN {n.vals[c]}
-  ELSE (IF MustBeExp(n, t) THEN {} ELSE {n.vals[c]})
+(* what may be reported if x is taken for the most recent message of the attribute *)
+AllowedAs(x, la, t, sk, c, codes) ==
+  IF NotYetDue(x, t, sk) THEN {x.vals[c]}
+  ELSE (IF MustBeExp(x, t) THEN {} ELSE {x.vals[c]})
        \cup {Unknown}
-       \cup {o.vals[c] : o \in {x \in Known(la, c, codes) \ {n} : ~MustBeExp(x, t)}}
+       \cup {o.vals[c] : o \in {y \in Known(la, c, codes) \ {x} : ~MustBeExp(y, t)}}
+
+(* the messages that may be taken for the most recent one: the one that arrived last and, if that is left
+   open, a message of another code of the attribute that arrived before it with a stamp that is not older *)
+Recent(la, c, codes) ==
+  LET n == Newest(la, c, codes) IN
+  {n} \cup (IF CrossCodeOpen THEN {o \in Known(la, c, codes) : o.k # n.k /\ o.t >= n.t} ELSE {})
+
+Allowed(la, t, sk, c, codes) ==
+  IF Known(la, c, codes) = {} THEN {Unknown}
+  ELSE UNION {AllowedAs(x, la, t, sk, c, codes) : x \in Recent(la, c, codes)}
 
 -----------------------------------------------------------------------------
 Init ==
   /\ now = 0
+  /\ skew = 0
+  /\ nrx = 0
   /\ slot = [c \in Ctx |-> [k \in Code |-> NoMsg]]
   /\ last = [c \in Ctx |-> [k \in Code |-> NoMsg]]
   /\ pend = {}
@@ -109,28 +146,35 @@ Init ==
 
 Quiet == pend = {}
 
-(* a packet of code k, form f, carrying vals (a function  S -> Val, S \subseteq Ctx), received at t *)
+(* the clock reads t when the next packet is taken in: t > now = time went by; t = now = the same
+   millisecond (a second frame of one serial read); t < now = the clock was put back meanwhile *)
+SkewAt(t) == skew + (IF t < now THEN now - t ELSE 0)
+
+(* a packet of code k, form f, carrying vals (a function  S -> Val, S \subseteq Ctx), stamped t *)
 ReceiveAt(k, f, vals, life, t) ==
   /\ InFlight \/ Quiet
-  /\ t > now
-  /\ LET m == Msg(k, f, vals, t, life) IN
+  /\ t >= 0
+  /\ LET m == Msg(k, f, vals, t, life, nrx + 1, t + SkewAt(t)) IN
        /\ slot' = StoreEffect(slot, m)
        /\ last' = StoreEffect(last, m)
   /\ now' = t
+  /\ skew' = SkewAt(t)
+  /\ nrx' = nrx + 1
   /\ obs' = NoObs
-  /\ h' = Append(h, <<"rx", k, f, {<<c, vals[c]>> : c \in DOMAIN vals}, life, t>>)
+  /\ h' = Append(h, <<"rx", k, f, {<<c, vals[c]>> : c \in DOMAIN vals}, life, t, nrx + 1, t - now>>)
   /\ UNCHANGED <<pend, seenExp>>
 
 (* traffic of other devices / controllers / other codes: not routed to any context *)
 OtherAt(t) ==
   /\ InFlight \/ Quiet
-  /\ t > now
+  /\ t >= 0
   /\ now' = t
+  /\ skew' = SkewAt(t)
   /\ obs' = NoObs
-  /\ h' = Append(h, <<"other", t>>)
-  /\ UNCHANGED <<slot, last, pend, seenExp>>
+  /\ h' = Append(h, <<"other", t, t - now>>)
+  /\ UNCHANGED <<nrx, slot, last, pend, seenExp>>
 
-(* tag = <<receipt time of a stored message, threshold number>>: lets the harness re-compute the
+(* tag = <<arrival number of a stored message, threshold number>>: lets the harness re-compute the
    instant with the lifetime of the real message *)
 TickTo(t, tag) ==
   /\ Quiet
@@ -138,18 +182,19 @@ TickTo(t, tag) ==
   /\ now' = t
   /\ obs' = NoObs
   /\ h' = Append(h, <<"tick", t, tag>>)
-  /\ UNCHANGED <<slot, last, pend, seenExp>>
+  /\ UNCHANGED <<skew, nrx, slot, last, pend, seenExp>>
 
+(* which of several messages with the greatest stamp is taken is left open (see TopStamp) *)
 Read(c, codes) ==
   /\ InFlight \/ Quiet
-  /\ LET m == Picked(slot, c, codes)
-         ex == m # NoMsg /\ Expired(m, now) IN
-       /\ obs' = [c |-> c, cs |-> codes, v |-> ReadVal(slot, now, c, codes), m |-> m,
-                  first |-> ex /\ m.t \notin seenExp]
+  /\ \E m \in Picks(slot, c, codes) :
+       LET ex == m # NoMsg /\ Expired(m, now) IN
+       /\ obs' = [c |-> c, cs |-> codes, v |-> ValOf(m, now, c), m |-> m,
+                  first |-> ex /\ m.n \notin seenExp]
        /\ pend' = IF ex THEN pend \cup {m} ELSE pend
-       /\ seenExp' = IF ex THEN seenExp \cup {m.t} ELSE seenExp
+       /\ seenExp' = IF ex THEN seenExp \cup {m.n} ELSE seenExp
   /\ h' = Append(h, <<"read", c, codes>>)
-  /\ UNCHANGED <<now, slot, last>>
+  /\ UNCHANGED <<now, skew, nrx, slot, last>>
 
 (* the loop runs the deferred _delete_msg calls *)
 Drain ==
@@ -158,7 +203,7 @@ Drain ==
   /\ pend' = {}
   /\ obs' = NoObs
   /\ h' = Append(h, <<"drain">>)
-  /\ UNCHANGED <<now, last, seenExp>>
+  /\ UNCHANGED <<now, skew, nrx, last, seenExp>>
 
 -----------------------------------------------------------------------------
 (* Environment for model checking: forms, values and clock steps at the thresholds. *)
@@ -174,12 +219,12 @@ ThresholdAt(m, j) == CASE j = 1 -> m.t + m.life - 1
                        [] j = 4 -> m.t + 2 * m.life + Grace
 
 Next ==
-  \/ \E k \in Code, c \in Ctx, v \in Val :
-        LifeS[k] # 0 /\ ReceiveAt(k, "S", [x \in {c} |-> v], LifeS[k], now + 1)
-  \/ \E k \in Code, S \in Subsets1(Ctx) : \E vals \in [S -> Val] :
-        LifeA[k] # 0 /\ ReceiveAt(k, "A", vals, LifeA[k], now + 1)
-  \/ OtherAt(now + 1)
-  \/ \E m \in {x \in AllStored : CanExpire(x)} : \E j \in 1..4 : TickTo(ThresholdAt(m, j), <<m.t, j>>)
+  \/ \E k \in Code, c \in Ctx, v \in Val, d \in StampSteps :
+        LifeS[k] # 0 /\ ReceiveAt(k, "S", [x \in {c} |-> v], LifeS[k], now + d)
+  \/ \E k \in Code, S \in Subsets1(Ctx), d \in StampSteps : \E vals \in [S -> Val] :
+        LifeA[k] # 0 /\ ReceiveAt(k, "A", vals, LifeA[k], now + d)
+  \/ \E d \in StampSteps : OtherAt(now + d)
+  \/ \E m \in {x \in AllStored : CanExpire(x)} : \E j \in 1..4 : TickTo(ThresholdAt(m, j), <<m.n, j>>)
   \/ \E c \in Ctx, a \in Attr : Read(c, CodesOf[a])
   \/ Drain
 
@@ -189,21 +234,22 @@ Spec == Init /\ [][Next]_vars
 (* Clauses, on the model. *)
 
 (* C14a "the one carried by the most recently received message ... regardless of what traffic for
-   other zones, devices or codes is interleaved": while the newest message is not yet due, a read
-   (performed in any quiescent state) returns its value. *)
+   other zones, devices or codes is interleaved": while the newest message - the one that arrived last,
+   whatever its stamp - is not yet due, a read (performed in any quiescent state) returns its value. *)
 FreshA ==
   Quiet => \A c \in Ctx, a \in Attr :
      LET n == Newest(last, c, CodesOf[a]) IN
-       (n # NoMsg /\ NotYetDue(n, now)) => ReadVal(slot, now, c, CodesOf[a]) = n.vals[c]
+       (n # NoMsg /\ NotYetDue(n, now, skew)) =>
+          ReadVals(slot, now, c, CodesOf[a]) \subseteq Allowed(last, now, skew, c, CodesOf[a])
 
 (* no value without a message *)
 NoInvention ==
   \A c \in Ctx, a \in Attr :
-     ReadVal(slot, now, c, CodesOf[a]) \in
+     ReadVals(slot, now, c, CodesOf[a]) \subseteq
         {Unknown} \cup {last[c][k].vals[c] : k \in {x \in CodesOf[a] : last[c][x] # NoMsg}}
 
 (* C14b / C14c on the rule itself *)
-ThresholdB == \A m \in AllStored : NotYetDue(m, now) => ~Expired(m, now)
+ThresholdB == \A m \in AllStored : NotYetDue(m, now, skew) => ~Expired(m, now)
 ThresholdC == \A m \in AllStored : MustBeExp(m, now) => Expired(m, now)
 
 (* C14d "expiry never un-happens as time advances" *)
@@ -214,11 +260,11 @@ MonotoneD == [][\A m \in AllStored : (Expired(m, now) /\ now' >= now) => Expired
    it expired returns its stale value. *)
 ReadE ==
   obs # NoObs =>
-     \/ obs.v \in Allowed(last, now, obs.c, obs.cs)
+     \/ obs.v \in Allowed(last, now, skew, obs.c, obs.cs)
      \/ StaleFirstRead /\ obs.first /\ obs.v = obs.m.vals[obs.c]
 
 (* strict form (no allowance): holds only for the repaired rule *)
-ReadEStrict == obs # NoObs => obs.v \in Allowed(last, now, obs.c, obs.cs)
+ReadEStrict == obs # NoObs => obs.v \in Allowed(last, now, skew, obs.c, obs.cs)
 
 (* the stores never hold anything but the most recently received message (or nothing) *)
 StoreIsLast == \A c \in Ctx, k \in Code : slot[c][k] \in {NoMsg, last[c][k]}
